@@ -417,6 +417,12 @@ impl Popen {
         }
         let mut merge: MergeKind = MergeKind::None;
 
+        if let (Redirection::Merge, Redirection::Merge) = (&stdout, &stderr) {
+            return Err(PopenError::LogicError(
+                "Redirection::Merge not valid for both stdout and stderr",
+            ));
+        }
+
         let (mut child_stdin, mut child_stdout, mut child_stderr) = (None, None, None);
 
         match stdin {
